@@ -654,7 +654,11 @@ class XsdComplexType(XsdType, ValidationMixin[Union[ElementType, str, bytes], An
         if self is other or self.ref is other:
             return True
         elif other.name == nm.XSD_ANY_TYPE:
-            return derivation != 'extension'
+            if derivation != 'extension':
+                return True
+            # look for an extension step in the rest of the derivation chain
+            return self.base_type is not None and self.base_type is not self and \
+                self.base_type.is_derived(other, derivation)
         elif self.base_type is other:
             return derivation is None
         elif isinstance(other, XsdUnion):
